@@ -360,3 +360,7 @@ func TestC20Graph(t *testing.T) {
 		Rule: "graph-shaped specs: 1-6 nodes (names with hyphens, dots, spaces, quotes, non-ASCII), branches to existing, missing, variable and empty targets, native and source actions and guards, several interpreters, empty branch lists, patterns of any JSON shape; reference analysis computed from the graph must equal tools.Analyze (as sets/counts); Dot and Mermaid output parsed back: one node per spec node, one edge per branch, placeholders only for missing/variable targets; non-trivial = >= 3 nodes and a missing/variable target, an orphan, a native action or a guard"},
 		genGraph, checkGraph)
 }
+
+func FuzzC20Graph(f *testing.F) {
+	ev.Fuzz(f, ev.Opts{Property: "C20", Name: "graph"}, genGraph, checkGraph)
+}
